@@ -393,6 +393,12 @@ impl Installation {
         {
             let mut index_manager = self.index_manager.write().await;
             index_manager.add_entry(&encoding_key, archive_id, archive_offset, size)?;
+
+            // Persist the updated index (as `DynamicContainer::write` does).
+            // The installation has no other save/close hook, so without this
+            // no .idx file is ever written and nothing written here can be
+            // found again after `open()` + `initialize()`.
+            index_manager.save_all()?;
         }
 
         info!(
